@@ -511,4 +511,5 @@ func (g *c10Gen) run() {
 	g.genBolt()
 	g.genObj()
 	g.genHist()
+	g.genFresh()
 }
